@@ -905,6 +905,47 @@ func ruleContReqResolved(c *Ctx, rule string) {
 		if len(pops) == 0 {
 			continue
 		}
+		// a helper that pops and hands the request back: the obligation is its callers'
+		returnsReq := false
+		for k := 0; k < fn.Signature.Results().Len(); k++ {
+			if strings.HasSuffix(fn.Signature.Results().At(k).Type().String(), "ContinuationRequest") {
+				returnsReq = true
+			}
+		}
+		if returnsReq {
+			for _, site := range callSitesOf(p, fn) {
+				caller := site.Parent()
+				cflow := mustFlow(caller, facts{}, func(f facts, i ssa.Instruction) facts {
+					if call, ok := i.(ssa.CallInstruction); ok {
+						if k := callKey(call); k == "(*ContinuationRequest).Done" || k == "(*ContinuationRequest).Cancel" {
+							return f.with("resolved")
+						}
+					}
+					return f
+				}, func(f facts, b *ssa.BasicBlock, s int) facts {
+					for _, a := range edgeAtoms(b, s) {
+						if a.Nil == 1 && strings.HasSuffix(a.V.Type().String(), "ContinuationRequest") {
+							f = f.with("resolved")
+						}
+					}
+					return f
+				})
+				bad := token.NoPos
+				for _, ret := range returnsOf(caller) {
+					if ret.Block() != site.Block() && !reaches(site.Block(), ret.Block()) {
+						continue
+					}
+					if f, reach := cflow.at(ret); reach && !f.has("resolved") {
+						bad = ret.Pos()
+					}
+				}
+				n++
+				c.check(!bad.IsValid(), rule, fmt.Sprintf("%s: request popped by %s#%d", fnKey(caller), fn.Name(), n), site.Pos(),
+					"every return after the pop has called Done or Cancel on the request",
+					"a return (at "+p.pos(bad)+") follows the removal of the oldest continuation request from the queue without Done or Cancel: the writer blocked in Wait (IDLE, a synchronising literal) is never woken")
+			}
+			continue
+		}
 		flow := mustFlow(fn, facts{}, func(f facts, i ssa.Instruction) facts {
 			if call, ok := i.(ssa.CallInstruction); ok {
 				if k := callKey(call); k == "(*ContinuationRequest).Done" || k == "(*ContinuationRequest).Cancel" {
